@@ -411,7 +411,7 @@ theorem re_l2 (ps : List LayerInfo) (x : Obj) (os : List AnyObj) (k : Nat) :
 theorem wire_l2 (ps : List LayerInfo) (x : Obj) (os : List AnyObj) :
     wire ps (.l2 x :: os) = hb (cxOf ps os) x ++ wire (liOf x os :: ps) os ++ List.replicate (trl x (sizeSum os)) 0 := rfl
 
-theorem cxOf_innerSize' (ps : List LayerInfo) (os : List AnyObj) : (cxOf ps os).innerSize = sizeSum os := rfl
+theorem cxOf_innerSize_sum (ps : List LayerInfo) (os : List AnyObj) : (cxOf ps os).innerSize = sizeSum os := rfl
 
 /-- one layer of `wire_re`, given the result for the stack below -/
 theorem wire_re_step (ps ps' : List LayerInfo) (x : Obj) (R R' : List AnyObj) (k n : Nat)
@@ -431,8 +431,8 @@ theorem wire_re_step (ps ps' : List LayerInfo) (x : Obj) (R R' : List AnyObj) (k
     rw [hkk, pk_zero] at hsz ⊢
     have hpk0 : pk (.l2 x :: R) k = 0 := by simp [pk, hasPppoe, hxp]
     have hhb := hb_wr (cxOf ps R) (cxOf ps' R') x hsim hinv
-      ⟨fun d _ => by rw [cxOf_innerSize', cxOf_innerSize', hsz, hnn]; rfl,
-       fun p _ => by rw [cxOf_innerSize', cxOf_innerSize', hsz, hnn]; rfl⟩ hstp
+      ⟨fun d _ => by rw [cxOf_innerSize_sum, cxOf_innerSize_sum, hsz, hnn]; rfl,
+       fun p _ => by rw [cxOf_innerSize_sum, cxOf_innerSize_sum, hsz, hnn]; rfl⟩ hstp
     have htr : trl (wr (cxOf ps R) x) n = trl x n := by
       cases x <;> first | rfl | (simp [isPppoe] at hxp)
     rw [hhb, hpk0, Nat.add_zero, htr]
@@ -446,8 +446,8 @@ theorem wire_re_step (ps ps' : List LayerInfo) (x : Obj) (R R' : List AnyObj) (k
       rw [hpkR] at hsz ⊢
       have hpk0 : pk (.l2 x :: R) k = 0 := by simp [pk, hasPppoe, hpp]
       have hhb := hb_wr (cxOf ps R) (cxOf ps' R') x hsim hinv
-        ⟨fun d _ => by rw [cxOf_innerSize', cxOf_innerSize', hsz, hnn]; rfl,
-         fun p _ => by rw [cxOf_innerSize', cxOf_innerSize', hsz, hnn]; rfl⟩ hstp
+        ⟨fun d _ => by rw [cxOf_innerSize_sum, cxOf_innerSize_sum, hsz, hnn]; rfl,
+         fun p _ => by rw [cxOf_innerSize_sum, cxOf_innerSize_sum, hsz, hnn]; rfl⟩ hstp
       have htr : trl (wr (cxOf ps R) x) n = trl x n := by
         apply trl_wr_same
         intro q hq
@@ -467,7 +467,7 @@ theorem wire_re_step (ps ps' : List LayerInfo) (x : Obj) (R R' : List AnyObj) (k
            subst hd
            have h0 : k = 0 := hk0 (by simp [EtherTier])
            subst h0
-           rw [cxOf_innerSize', cxOf_innerSize', hsz, hnn]; rfl,
+           rw [cxOf_innerSize_sum, cxOf_innerSize_sum, hsz, hnn]; rfl,
          fun p hp' => by subst hp'; simp [isPppoe] at hxp'⟩ hstp
       have htr := trl_wr_absorb (cxOf ps R) x n k
       rw [hhb, hpk0, htr]
